@@ -23,4 +23,10 @@ def _sweep(seed, rec):
     return src.replace("json.loads(sys.argv[1]) if len(sys.argv) > 1 else {}", repr(dict(seed=seed)))
 
 
-NATIVE_SWEEPS = {'*': _sweep}
+def _ratesweep(seed, rec):
+    # the volume-scaled rate laws (C01 closed forms in the VOL / STOVOL modes) evaluated natively against their formulas
+    src = open(os.path.join(_HERE, 'native', 'C01_sweep.py')).read()
+    return src.replace("json.loads(sys.argv[1]) if len(sys.argv) > 1 else {}", repr(dict(seed=seed)))
+
+
+NATIVE_SWEEPS = {'*': _sweep, 'types::Propensity.get_stochastic_volume_propensity': _ratesweep, 'types::Propensity.get_volume_propensity': _ratesweep, 'types::Model.__init__': _ratesweep}
